@@ -88,12 +88,14 @@ func splitIdent(ident string) (string, string) {
 func findModuleAndIsExternal(y Definition, prefix string) (*Module, bool, error) {
 	m := OriginalModule(y)
 	if prefix == "" || m.Prefix() == prefix {
-		return m, false, nil
+		// what a submodule refers to without prefix is defined by the module it belongs
+		// to or one of its submodules, all of that is merged into the module
+		return mainModule(m), false, nil
 	}
 	sub, found := m.imports[prefix]
 	if !found {
 		if m.belongsTo != nil && m.belongsTo.prefix == prefix {
-			return m.parent.(*Module), true, nil
+			return mainModule(m), true, nil
 		}
 		return nil, true, errors.New("module not found " + prefix)
 	}
